@@ -213,6 +213,12 @@ def nanMean (l : List (Option Rat)) : Val :=
   let xs := l.filterMap id
   if xs.isEmpty then .nan else .num (sumRat xs / (xs.length : Rat))
 
+/-- `max_disp[i] - min_disp[i]` for the disparities kept for one sample (`none` = NaN: nothing kept) -/
+def spreadOpt (c : List Nat) : Option Rat :=
+  match lminNat c, lmaxNat c with
+  | some a, some b => some ((b : Rat) - (a : Rat))
+  | _, _ => none
+
 /-- `(risk_max[row, col], risk_min[row, col])` of `compute_risk`; `sampled` is
     `sampled_ambiguity[row, col, :]` -/
 def pixelRisk (mn mx : Rat) (etas : List Rat) (curve : Curve) (sampled : List Nat) : Val × Val :=
@@ -227,10 +233,7 @@ def pixelRisk (mn mx : Rat) (etas : List Rat) (curve : Curve) (sampled : List Na
       List.zipWith (fun d keep => if keep then some d else none) (npRepeat (List.range nd) ne) cmp
     let mat := chunks ne nd dispCv
     let cols := (List.range ne).map (fun i => (column none mat i).filterMap id)
-    let spread : List (Option Rat) := cols.map (fun c =>
-      match lminNat c, lmaxNat c with
-      | some a, some b => some ((b : Rat) - (a : Rat))
-      | _, _ => none)
+    let spread : List (Option Rat) := cols.map spreadOpt
     let rmax := nanMean spread
     let rmin := nanMean (List.zipWith (fun s a => s.map (fun s => (1 + s) - (a : Rat))) spread sampled)
     (rmax, rmin)
